@@ -16,7 +16,7 @@ ALPHA = 1e-12
 NAMES = ['t7', 'b2', 'x9', 'a1', 'm5', 'k3']
 CFG = ('SPECIFICATION Spec\nCONSTANTS\n  MinCols = %d\n  MaxCols = %d\n  Kinds = {%s}\n  Patterns = {%s}\n  Forms = {%s}\n  RowCounts = {%s}\n'
        'INVARIANT SchemaOK\nINVARIANT Emit\nCHECK_DEADLOCK FALSE\n')
-KINDS = ('gaussian', 'gamma', 'beta', 'uniform', 'student', 'bimodal', 'constant', 'timestamp', 'integer')
+KINDS = ('gaussian', 'gamma', 'beta', 'uniform', 'student', 'bimodal', 'constant', 'timestamp', 'integer', 'micro')
 PATTERNS = ('independent', 'equi-positive', 'equi-negative', 'ar', 'near-singular')
 FORMS = ('default', 'class', 'name', 'instance', 'dict')
 MLE_FAMILIES = ('GammaUnivariate', 'BetaUnivariate', 'StudentTUnivariate', 'LogLaplace')
@@ -25,6 +25,7 @@ MLE_FAMILIES = ('GammaUnivariate', 'BetaUnivariate', 'StudentTUnivariate', 'LogL
 def law(kind):
     from scipy import stats
     return {'gaussian': stats.norm(10, 3), 'timestamp': stats.norm(1.7e9, 1.0e3),       # large offset, tiny relative spread
+            'micro': stats.norm(4.7e-9, 6.0e-10),              # a quantity of the order 1e-9 (capacitances in farad)
             'gamma': stats.gamma(2.0, 1.0, 2.0), 'beta': stats.beta(2.0, 4.0, -1.0, 6.0),
             'uniform': stats.uniform(-3, 8), 'student': stats.t(6, 5, 2)}.get(kind)
 
@@ -39,7 +40,7 @@ def corr(pattern, d):
     return R
 
 
-CONSTS = (3.25, 0.0, 0, -7.5)      # the value of a constant column (float zero and integer zero are constants like any other)
+CONSTS = (3.25, 0.0, 0, -7.5, 1777026525697216513)      # the last one is a 64-bit identifier: not representable as a double      # the value of a constant column (float zero and integer zero are constants like any other)
 
 
 def make_table(layout, pattern, n, rs, const=3.25):
@@ -74,7 +75,8 @@ def true_cdf(kind, x):
 def config(form, layout, cols, variant=0):
     import copulas.univariate as U
     fam = {'gaussian': U.GaussianUnivariate, 'gamma': U.GammaUnivariate, 'beta': U.BetaUnivariate, 'uniform': U.UniformUnivariate,
-           'student': U.StudentTUnivariate, 'bimodal': U.GaussianKDE, 'constant': U.GaussianUnivariate, 'timestamp': U.GaussianUnivariate, 'integer': U.GammaUnivariate}
+           'student': U.StudentTUnivariate, 'bimodal': U.GaussianKDE, 'constant': U.GaussianUnivariate, 'timestamp': U.GaussianUnivariate, 'integer': U.GammaUnivariate,
+           'micro': U.GaussianUnivariate}
     if form == 'default':
         return {}
     if form == 'class':
@@ -83,7 +85,7 @@ def config(form, layout, cols, variant=0):
         return {'distribution': 'copulas.univariate.gaussian_kde.GaussianKDE'}
     if form == 'instance':
         # one instance serves as the template of every column; when the whole layout belongs to one closed-form family an instance of it is used
-        if variant % 2 and set(layout) <= {'gaussian', 'timestamp', 'constant'}:
+        if variant % 2 and set(layout) <= {'gaussian', 'timestamp', 'constant', 'micro'}:
             return {'distribution': U.GaussianUnivariate()}
         if variant % 2 and set(layout) <= {'uniform', 'constant'}:
             return {'distribution': U.UniformUnivariate()}
@@ -105,7 +107,7 @@ def _run(job):
     d = len(layout)
     cols = NAMES[:d]
     rs = np.random.RandomState(seed)
-    const = CONSTS[seed % 4]
+    const = CONSTS[seed % 5]
     big = bool(case.get('big'))
     if big:                 # a table of several thousand rows
         ntrain = int(case['big'])
@@ -150,7 +152,10 @@ def _run(job):
             rec['exact'].append('missing-values')
         rec['infinite'] = int(np.isinf(s.to_numpy(dtype=float)).sum())
         for j, kind in enumerate(layout):
-            if kind == 'constant' and not np.all(s[cols[j]].to_numpy() == const):
+            if kind == 'constant' and isinstance(const, int) and abs(const) > 2 ** 53:
+                if [int(v) if float(v).is_integer() else v for v in s[cols[j]].tolist()] != [const] * n:        # exact integers, no float comparison
+                    rec['exact'].append('constant-column-not-reproduced')
+            elif kind == 'constant' and not np.all(s[cols[j]].to_numpy() == const):
                 rec['exact'].append('constant-column-not-reproduced')
         if n < 1000 or rec['exact']:
             return rec
@@ -238,7 +243,8 @@ def run(ctx):
                                  (['timestamp', 'gaussian'], 'equi-negative', 'class', 2600 if quick else 5200)):
         clist.append({'layout': lay, 'pattern': pat, 'form': form, 'n': 1000, 'big': rows})
     # and three requests with four and five columns, one of them constant, under the AR(0.8) pattern (all pairwise correlations differ)
-    for lay, form in ((['gaussian', 'constant', 'uniform', 'gaussian', 'gamma'], 'dict'), (['timestamp', 'gaussian', 'constant', 'gaussian'], 'instance'),
+    for lay, form in ((['micro', 'gaussian'], 'class'), (['gaussian', 'micro', 'uniform'], 'name'), (['micro', 'micro'], 'default'),
+                      (['gaussian', 'constant', 'uniform', 'gaussian', 'gamma'], 'dict'), (['timestamp', 'gaussian', 'constant', 'gaussian'], 'instance'),
                       (['uniform', 'gaussian', 'gaussian', 'constant'], 'class')):
         clist.append({'layout': lay, 'pattern': 'ar', 'form': form, 'n': 1000})
     jobs = [(c, ctx.seed * 13 + i + (1 if c.get('big') and ((ctx.seed * 13 + i) // 2) % 2 == 0 else 0) * 2, ntrain, nsample) for i, c in enumerate(clist)]
